@@ -625,7 +625,7 @@ def c03_l2_scenario(binary, work, idx, rng, merged):
         fans_yaml += "  - id: ff\n    file:\n      path: %s/filefan\n    curve: lin\n    controlAlgorithm: direct\n" % sd
         devices.append(("file", os.path.join(sd, "filefan"), None))
     # every 8th scenario (and a fifth of the others) also has a cmd fan whose set tool takes 0.4 s (liquidctl-like); two
-    # signals 0.1 s apart: the second one arrives while the tool is writing the fan's full speed
+    # signals some tenths of a second apart: they arrive while the tool is handing the fan back
     slow_cmd = idx % 8 == 6 or (not fatal and rng.random() < 0.2)
     if slow_cmd:
         l2.write(os.path.join(sd, "cmdpwm"), "%d\n" % orig_pwm)
@@ -652,9 +652,10 @@ def c03_l2_scenario(binary, work, idx, rng, merged):
     gaps = [rng.choice([0.0, 0.005, 0.05, 1.0]) for _ in range(nsig - 1)]
     phase = rng.choice(["startup-wait", "analysis", "analysis-late", "first-second", "ticking", "ticking-late"])
     if idx % 8 == 6:
-        nsig, phase = 2, "ticking-late"
-        sigs = [_signal.SIGTERM, rng.choice([_signal.SIGTERM, _signal.SIGINT])]
-        gaps = [0.1]
+        # three signals: the later ones arrive while the tool is writing the original value resp. the full speed
+        nsig, phase = 3, "ticking-late"
+        sigs = [_signal.SIGTERM, rng.choice([_signal.SIGTERM, _signal.SIGINT]), rng.choice([_signal.SIGTERM, _signal.SIGINT])]
+        gaps = [0.2, 0.4]
     more_sensors = more_curves = ""
     if fatal:
         phase = "fatal-sensor-error"
@@ -1197,12 +1198,17 @@ def c15_l2_scenario(binary, work, idx, rng, merged):
         ops, forced = ["start", ["reset", "reset", "init", "init", "reset", "reset"][idx], "start"], ["f1", "ff", "f1", "ff", "f1", "ff"][idx]
     if idx in (6, 7):
         ops, forced = ["start", "reset", "reset", "start"], ["f1", "ff"][idx - 6]
+    if idx == 8:
+        ops, forced = ["start+reset-while-running", "start"], "f1"
+    elif idx > 8 and rng.random() < 0.25:
+        ops = ops[:-1] + ["start+reset-while-running", "start"]
     if rel_db and (idx == 1 or rng.random() < 0.5):
         # the user characterises a fan with `fan init` before the daemon runs for the first time
         ops = ["init"] + ops[(2 if idx == 1 else 0):]
     case = {"relative_dbPath_and_configuration_elsewhere": rel_db, "pwmMap": pwm_map, "minMax": min_max, "ops": ops, "fan_ids_in_configuration_order": re.findall(r"- id: (\S+)", fans_yaml)}
     cls = "pwmMap=%s:minMax=%s" % (pwm_map, min_max)
     analysed = {"f1": False, "ff": False}
+    discarded = {"f1": False, "ff": False}  # `fan reset` was the last thing that happened to the fan's stored data
     trace = []
     for k, op in enumerate(ops):
         if op in ("reset", "init"):
@@ -1216,14 +1222,27 @@ def c15_l2_scenario(binary, work, idx, rng, merged):
                 merged.add_violation("cli-%s-crashes" % op, "%s\n%s" % (json.dumps(case), (out or "")[-1200:]), case)
                 return
             analysed[which] = (op == "init")
+            discarded[which] = (op == "reset")
             trace.append({"op": "%s %s" % (op, which), "exit": rc})
             continue
         d = l2.Daemon(binary, sd, cfg, tree.root, driver=driver, timescale=10, name="start%d" % k, cfg_dir=cfg_dir)
+        live_reset = None
         try:
             if not d.wait_for(r"(?s)(Starting controller loop.*){2}", 120):
                 merged.inconclusive.append("C15 L2 scenario %d: regulation did not begin: %s" % (idx, d.output()[-500:].replace("\n", " | ")))
                 return
             time.sleep(0.4)
+            if op == "start+reset-while-running":
+                # the user discards a fan's data while the daemon is regulating, and stops the daemon afterwards
+                live_reset = forced or rng.choice(["f1", "ff"])
+                cfgp = os.path.join(cfg_dir or sd, "cli.yaml")
+                l2.write(cfgp, cfg)
+                rc, out = run_cli(binary, sd, cfgp, tree.root, ["fan", "--id", ids[live_reset], "reset"], timeout=120)
+                if rc is None or l2.has_panic(out or ""):
+                    merged.add_violation("cli-reset-crashes", "%s\n%s" % (json.dumps(case), (out or "")[-1200:]), case)
+                    return
+                trace.append({"op": "reset %s while the daemon runs" % live_reset, "exit": rc})
+                time.sleep(0.2)
             d.signal(_signal.SIGTERM)
             if d.wait(90) is None:
                 merged.inconclusive.append("C15 L2 scenario %d: daemon did not exit" % idx)
@@ -1249,6 +1268,11 @@ def c15_l2_scenario(binary, work, idx, rng, merged):
                 if analysed[fan] and (len(distinct) > 4 or best >= 3):
                     merged.add_violation("fan-analysed-again-on-restart:%s:%s" % (fan, cls), "start no. %d: %s; trace %s" % (k, json.dumps(obs), json.dumps(trace)), replay)
                     return
+                if discarded[fan] and fan == "f1" and best < 3:
+                    # the stored data is used "until the user discards it": after `fan reset` the RPM curve is measured anew
+                    merged.add_violation("discarded-characterisation-still-used:%s:%s" % (fan, cls), "start no. %d after `fan reset`: no RPM-curve measurement: %s; trace %s" % (k, json.dumps(obs), json.dumps(trace)), replay)
+                    return
+                discarded[fan] = False
                 if pwm_map and len(distinct) > 3 + 4:
                     merged.add_violation("sweep-although-pwmMap-configured:%s" % fan, "start no. %d: %s" % (k, json.dumps(obs)), replay)
                     return
@@ -1257,6 +1281,8 @@ def c15_l2_scenario(binary, work, idx, rng, merged):
                 if analysed[fan]:
                     merged.nontrivial.add("l2|%s|%s|%s" % (fan, cls, ",".join(ops)))
                 analysed[fan] = True
+            if live_reset:
+                analysed[live_reset], discarded[live_reset] = False, True
         finally:
             d.close()
     if not merged.samples:
